@@ -65,7 +65,7 @@ def routing_case(draw):
     pair.update({"restr": restr, "ignore_h": draw(st.integers(0, 3)) > 0,
                  "deform": draw(ac.deformation_types(min(ns, ne))),
                  "guess": len(pair["start"]["residues"]) > 1 and draw(st.booleans()),
-                 "ignore_default": draw(st.integers(0, 5)) == 0})
+                 "ignore_default": draw(st.integers(0, 5)) == 0, "twice": draw(st.integers(0, 2)) == 0})
     if pair["ignore_default"]:
         pair["ignore_h"] = True            # documented default: hydrogens of the fixed molecule are ignored
     return pair
@@ -88,12 +88,13 @@ def check_routing(case):
             validate_pairs([(i, j) for i, j in restr if o1 <= i < o1 + a], a, b, o1, o2, "guessed restraints")
             o1 += a
             o2 += b
+    given = None if case.get("guess") else list(restr)        # ONE list object, handed over again for the second run
     with Recorder() as rec:
         if case.get("ignore_default"):
-            lib("align", ali.align_molecules, None if case.get("guess") else list(restr),
+            lib("align", ali.align_molecules, given,
                 None if case["deform"] is None else tuple(case["deform"]))
         else:
-            lib("align", ali.align_molecules, None if case.get("guess") else list(restr),
+            lib("align", ali.align_molecules, given,
                 None if case["deform"] is None else tuple(case["deform"]), case["ignore_h"], True)
     if ne == 1:
         if rec.calls:
@@ -137,6 +138,20 @@ def check_routing(case):
                 not np.array_equal(call["fixed"][a], want_f) or not np.array_equal(call["mobile"][b], want_m):
             raise PropertyViolation("designated-atoms", "%s: restraint (%d,%d) designates other atoms than start %d / "
                                     "end %d" % (label, a, b, i, j))
+    if given is not None and case.get("twice") and ne > 1:
+        # the same restraint list object is used for a second alignment (e.g. another conformation, another seed):
+        # it must designate the same atoms again
+        with Recorder() as rec2:
+            if case.get("ignore_default"):
+                lib("align", ali.align_molecules, given, None if case["deform"] is None else tuple(case["deform"]))
+            else:
+                lib("align", ali.align_molecules, given,
+                    None if case["deform"] is None else tuple(case["deform"]), case["ignore_h"], True)
+        if len(rec.calls) == 1 and len(rec2.calls) == 1 and rec2.calls[0]["restr"] != rec.calls[0]["restr"]:
+            raise PropertyViolation("restraint-list-reused", "the same restraint list object given to a second alignment "
+                                    "reaches the optimiser as %r, the first time as %r (given %r, now %r)"
+                                    % (rec2.calls[0]["restr"], rec.calls[0]["restr"], restr, given),
+                                    cls="restraint-list-reused")
     nt = swap and case["ignore_h"] and dropped >= 1 and len(exp) >= 1
     return {"nontrivial": nt,
             "classes": ["swap" if swap else "noswap", "filter" if case["ignore_h"] else "nofilter",
